@@ -346,6 +346,15 @@ func (h *hist) scenario(n int) {
 		if !step() {
 			return
 		}
+		if c.ver == 0 && !os.o.confirmed {
+			// OPEN_CONFIRM with an out-of-order sequence ID must not
+			// confirm anything.
+			h.openConfirm(c, os.sid, fhLeaf(os.leaf), uint32(2+h.pick(3)), "bad-owner-seqid")
+			h.sit("open-confirm-refused-for-unconfirmed-open-owner")
+			if !step() {
+				return
+			}
+		}
 		switch h.pick(3) {
 		case 0:
 			h.open(c, openParams{ownerKey: c.ownerKey(2), name: fileNames[h.pick(3)], fh: fhRoot, access: accWrite, how: howNoCreate, claim: claimNull, variant: "valid"})
@@ -441,6 +450,16 @@ func (h *hist) scenario(n int) {
 				if !step() {
 					return
 				}
+			}
+		}
+		// A reclaim whose open fails inside the file.
+		if !os.closed && c.usable() && h.noFaultsArmed() {
+			os.leaf.failOpen.Add(1)
+			h.note("armed open fault on %s", os.leaf)
+			h.open(c, openParams{ownerKey: c.ownerKey(0), fh: fhLeaf(os.leaf), access: accBoth, how: howNoCreate, claim: claimPrevious, variant: "claim-open-fails"})
+			h.sit("reclaim-open-fails-inside-leaf")
+			if !step() {
+				return
 			}
 		}
 		// The refused reclaims must not have left anything that
